@@ -405,12 +405,19 @@ func main() {
 				jobs = append(jobs, job{pos: positions, pl: b, t: t, fl: fl})
 			}
 			for _, inj := range injectors {
-				if !c.Thorough() && (inj.variant == "struct" || inj.variant == "concat") {
-					continue
-				}
 				for _, p := range positions {
-					if !c.Thorough() && !quickPositions[p] {
-						continue
+					if !c.Thorough() {
+						// quick: top-level / func-body / call variants on the main positions, the
+						// struct variant where text lands in struct doc comments (defaults, patterns)
+						structPos := strings.Contains(p, "default") || strings.Contains(p, "pattern")
+						switch {
+						case inj.variant == "concat":
+							continue
+						case inj.variant == "struct" && !structPos:
+							continue
+						case inj.variant != "struct" && !quickPositions[p] && !strings.Contains(p, "inline-"):
+							continue
+						}
 					}
 					jobs = append(jobs, job{pos: []string{p}, pl: inj, t: t, fl: fl})
 				}
